@@ -39,6 +39,7 @@ from liquid2.exceptions import UnknownFilterError
 from liquid2.expression import Expression
 from liquid2.limits import MAX_STR_INT
 from liquid2.limits import to_int
+from liquid2.limits import to_str
 from liquid2.token import RESERVED_WORDS
 from liquid2.unescape import escape
 from liquid2.unescape import unescape
@@ -2205,7 +2206,7 @@ def _to_liquid_string(val: Any, *, auto_escape: bool = False) -> str:
     elif val is None:
         val = ""
     elif isinstance(val, range):
-        val = f"{val.start}..{val.stop - 1}"
+        val = f"{to_str(val.start)}..{to_str(val.stop - 1)}"
     elif isinstance(val, Sequence):
         if auto_escape:
             val = Markup("").join(
@@ -2218,7 +2219,7 @@ def _to_liquid_string(val: Any, *, auto_escape: bool = False) -> str:
     elif isinstance(val, (Empty, Blank)):
         val = ""
     else:
-        val = str(val)
+        val = to_str(val)
 
     if auto_escape:
         val = escape(val)
